@@ -1,4 +1,5 @@
 #include "gamma.hpp"
+#include "hooks.hpp"
 
 namespace sim {
 
@@ -131,10 +132,18 @@ GammaResult in_gamma(const AbsVal &inv, const Sigma &s, const GammaOpts &o) {
     }
   }
   if (o.export_disj) {
-    disj_lin_cst_sys_t d = inv.to_disj();
-    if (d.is_false())
+    // some domains refuse this query (CRAB_ERROR "TODO"): a refusal is not an answer
+    disj_lin_cst_sys_t d;
+    bool have = true;
+    try {
+      d = inv.to_disj();
+    } catch (const FatalError &) {
+      have = false;
+    }
+    if (!have) {
+    } else if (d.is_false())
       return fail("disj", "disjunctive export is false");
-    if (!d.is_true()) {
+    else if (!d.is_true()) {
       bool some = false;
       for (auto const &sys : d) {
         bool refuted = false;
